@@ -241,6 +241,51 @@ Section StepMonitors.
     | _, _ => true
     end.
 
+  (** status.remotePhases and the relay of controllerOf. Every entry of the remotePhases a status request carries
+      is one the ObjectSet already had stored, or names (with its uid) a phase object obtained earlier in this pass
+      and controlled by the ObjectSet: nobody else's phase is ever recorded as this ObjectSet's remote phase.
+      And the controllerOf a status request of an active pass carries contains what each delegated phase up to the
+      phase the pass stopped at reports in the phase object as last obtained (controlled by the ObjectSet):
+      "always gather all objects we are controller of", also while a phase has not reported Available yet. *)
+  Definition failing_phase : option N :=
+    last (flat_map (fun e => match e with SMeta (MStatus _ _ _ _ f _) => [f] | _ => [] end) evs) None.
+  Fixpoint upto_failing (phs : list phase) (n : N) : list phase :=
+    match phs with
+    | [] => []
+    | ph :: r => if ph_name ph =? n then [ph] else ph :: upto_failing r n
+    end.
+  Definition status_reqs : list (list sev * (list cond * list okey * list (N * N))) :=
+    flat_map (fun pe => match snd pe with SMeta (MStatus _ cs co rem _ _) => [(fst pe, (cs, co, rem))] | _ => [] end) (with_prefix [] evs).
+  Definition m_remotes : bool :=
+    match ds_step o, ds_pre_set o with
+    | DSet _ _ _, Some s =>
+        forallb (fun st => let '(before, (_, _, rem)) := st in
+          forallb (fun nu =>
+            existsb (fun x => (fst x =? fst nu) && (snd x =? snd nu)) (os_remotes s) ||
+            match last_seen (fst nu) before None with
+            | Some (Some cur) => controlled_by_uid (op_owners cur) (oi_uid (os_id s)) && (oi_uid (op_id cur) =? snd nu)
+            | _ => false end) rem) status_reqs
+    | _, _ => true
+    end.
+  Definition m_relay_ctrlof : bool :=
+    match ds_step o, ds_pre_set o with
+    | DSet _ _ _, Some s =>
+        negb (is_activeb s) || negb (names_nodup s) ||
+        forallb (fun st => let '(before, (cs, co, _)) := st in
+          match find_cond cs CAvailable with
+          | Some cd =>
+              option_eqb cond_eqb (find_cond (os_conds s) CAvailable) (Some cd) ||
+              negb (creason_eqb (cd_reason cd) RAvailable || creason_eqb (cd_reason cd) RProbeFailure) ||
+              forallb (fun ph => match last_seen (join s ph) before None with
+                                 | Some (Some cur) =>
+                                     negb (controlled_by_uid (op_owners cur) (oi_uid (os_id s))) ||
+                                     forallb (fun k => existsb (okey_eqb k) co) (op_ctrlof cur)
+                                 | _ => true end)
+                      (filter ph_class (match failing_phase with Some n => upto_failing (os_phases s) n | None => os_phases s end))
+          | None => true end) status_reqs
+    | _, _ => true
+    end.
+
   (** The gate: a write to phase j (member of a local phase, create / pause of a phase object) happens only after
       every earlier delegated phase was seen Available for its current generation in this pass. *)
   Definition m_gate : bool :=
@@ -289,13 +334,6 @@ Section StepMonitors.
       says (a paused ObjectSet pauses a phase that has not reported yet).
       [m_pause_all]: for every delegated phase; [m_pause]: for the phases the phase loop reached, i.e. up to and
       including the phase the pass named as failing. *)
-  Definition failing_phase : option N :=
-    last (flat_map (fun e => match e with SMeta (MStatus _ _ _ _ f _) => [f] | _ => [] end) evs) None.
-  Fixpoint upto_failing (phs : list phase) (n : N) : list phase :=
-    match phs with
-    | [] => []
-    | ph :: r => if ph_name ph =? n then [ph] else ph :: upto_failing r n
-    end.
   Definition pause_synced (s : oset) (ph : phase) : bool :=
     let desired := lifecycle_eqb (os_life s) LPaused in
     match last_seen (join s ph) evs None with
@@ -447,7 +485,7 @@ Definition monitor_run (c : drun) : bool :=
   all_steps m_carries c && all_steps m_relay c && all_steps m_gate c && all_steps m_teardown c && all_steps m_class c && (dr_annot c || (all_steps m_nsbound c && all_steps m_preflight_reported c)) && m_final c.
 
 (** The clause the implementation violates (known finding): kept apart from the rest of the monitor. *)
-Definition monitor_own (c : drun) : bool := all_steps m_own c.
+Definition monitor_own (c : drun) : bool := all_steps m_own c && all_steps m_remotes c && all_steps m_relay_ctrlof c.
 
 (** judge: agreement of both runs with the model, the monitors of the delegated run (and of the local twin, on
     which they are trivial but must hold too), the differential monitor, the ownership clause. *)
@@ -464,7 +502,7 @@ Definition judge_parts (c : tcase) : list bool :=
   let '(t1, t2, t3) := m_twin_parts c in
   [agree d; match tc_l c with Some l => agree l | None => true end;
    all_steps m_carries d; all_steps m_relay d; all_steps m_gate d; all_steps m_teardown d; all_steps m_class d && (dr_annot d || (all_steps m_nsbound d && all_steps m_preflight_reported d)); m_final d;
-   t1; t2; t3; monitor_own d].
+   t1; t2; t3; all_steps m_own d; all_steps m_remotes d; all_steps m_relay_ctrlof d].
 
 (** * The monitors accept the model (the parts that do not depend on a whole run) *)
 
